@@ -10,7 +10,7 @@ namespace HqModel.Core
 the slack of the old one and is not Finished -/
 theorem Safe.setState {s : State} {told : Task} {id : TaskId} {st : TS} {deps : List TaskId} {prio : Int}
     {cl : CrashLimit} {inst crashes : Nat} (hf : findTask s.tasks id = some told)
-    (hs : slack told.state ≤ slack st) (hfin : st ≠ .finished) :
+    (hs : slack st = slack told.state) (hfin : st ≠ .finished) :
     Safe s (s.setTask ⟨told.id, st, told.consumers, deps, told.rq, prio, cl, inst, crashes⟩) := by
   have hid : told.id = id := findTask_some_id hf
   refine Safe.setTask (told := told) ?_ (PutOk.mk' hs (fun e => absurd e hfin))
@@ -60,7 +60,7 @@ theorem removeConsumer_q {U f pend qs} {ts ts' : List Task} {d c : TaskId} (hi :
     · cases h
       have hid : dt.id = d := findTask_some_id hd
       refine hi.put (t' := { dt with consumers := dt.consumers.erase c }) (told := dt) (by show findTask ts dt.id = _; rw [hid]; exact hd)
-        ⟨rfl, fun x hx => List.mem_of_mem_erase hx, fun hn => hn.erase c, Nat.le_refl _, fun e => e⟩
+        ⟨rfl, fun x hx => List.mem_of_mem_erase hx, fun hn => hn.erase c, rfl, fun e => e⟩
 
 theorem removeConsumers_q {U f pend qs} (deps : List TaskId) (ts ts' : List Task) (c : TaskId)
     (hi : QInv4 U f pend ts qs) (h : removeConsumers ts c deps = .ok ts') : QInv4 U f pend ts' qs := by
@@ -228,7 +228,7 @@ grind_pattern Safe.ask => ask s
 grind_pattern Safe.setWorker => s.setWorker w
 theorem Safe.setState' {s : State} {told : Task} {st : TS} {deps : List TaskId} {prio : Int}
     {cl : CrashLimit} {inst crashes : Nat} (hf : findTask s.tasks told.id = some told)
-    (hs : slack told.state ≤ slack st) (hfin : st = .finished → told.state = .finished) :
+    (hs : slack st = slack told.state) (hfin : st = .finished → told.state = .finished) :
     Safe s (s.setTask ⟨told.id, st, told.consumers, deps, told.rq, prio, cl, inst, crashes⟩) :=
   Safe.setTask (told := told) hf (PutOk.mk' hs hfin)
 grind_pattern Safe.setState' => s.setTask ⟨told.id, st, told.consumers, deps, told.rq, prio, cl, inst, crashes⟩
